@@ -460,6 +460,20 @@ func genC19(e *emitter, r *rng, thorough bool) {
 		e.emit("rng.seed.fail", "rng.seed 32 "+tape)
 		tape = runWithGenTape(r, fa, func() { _, _ = bip39.GenerateEntropy(256) })
 		e.emit("rng.entropy.fail", "rng.entropy 256 "+tape)
+		if fa == 0 {
+			// the first read fails, for every size: which error the failing source hands out (io.EOF, io.ErrUnexpectedEOF,
+			// a plain error) is chosen by the text of the line, so a dozen lines meet all three
+			for n := 16; n <= 64; n += 4 {
+				nn := uint8(n)
+				tape = runWithGenTape(r, 0, func() { _, _ = bip32.GenerateSeed(nn) })
+				e.emit("rng.seed.fail-first", fmt.Sprintf("rng.seed %d %s", n, tape))
+			}
+			for _, bits := range []int{128, 160, 192, 224, 256} {
+				b := bits
+				tape = runWithGenTape(r, 0, func() { _, _ = bip39.GenerateEntropy(bip39.Entropy(b)) })
+				e.emit("rng.entropy.fail-first", fmt.Sprintf("rng.entropy %d %s", bits, tape))
+			}
+		}
 		pl := []byte(`{"a":1}`)
 		tape = runWithGenTape(r, fa, func() { _, _ = envelope.NewJSONEnvelope(json.RawMessage(pl)) })
 		e.emit("rng.env.fail", "env.new "+hx(pl)+" "+tape)
@@ -668,6 +682,11 @@ func genC20(e *emitter, r *rng, thorough bool) {
 		d := new(big.Int).Add(big.NewInt(77), big.NewInt(int64(i)))
 		priv := privOf(d)
 		pkHex := hex.EncodeToString(priv.PubKey().SerialiseCompressed())
+		// the same key parsed by the caller for its own use beforehand (the harness edits what it is given back); repeated so
+		// that every shard has done so before the envelopes of this key are validated
+		for t := 0; t < 32; t++ {
+			e.emit("key.parsed-by-caller-before", "parsepub "+hx(priv.PubKey().SerialiseCompressed()))
+		}
 		for _, mime := range mimes {
 			var payload string
 			var signed []byte
@@ -869,6 +888,18 @@ func genC15(e *emitter, r *rng, thorough bool) {
 			}
 		}
 		return x
+	}
+	// every method of a key object AFTER it was wiped, each asked twice (an error remembered by the first call must still
+	// be an error, not a nil dereference, the second time), for private, neutered and re-parsed keys, wiped before and
+	// after first use
+	for i := 0; i < 4; i++ {
+		root := "seed:" + hx(r.bytes(32)) + ":" + fmt.Sprint(r.intn(len(nets)))
+		path := hx([]byte("0/1"))
+		e.emit("xk.after-zero.public", xkLine(root, []string{"n0", "c1:0", "z1", "c1:1", "c1:1", "p1:" + path, "d1:" + path, "n1", "t1", "s1:1", "c1:2", "z1", "c1:3"}))
+		e.emit("xk.after-zero.public-unused", xkLine(root, []string{"n0", "z1", "c1:0", "c1:0", "d1:" + path, "d1:" + path, "n1", "t1"}))
+		e.emit("xk.after-zero.private", xkLine(root, []string{"c0:2147483648", "z0", "c0:0", "c0:0", "c0:2147483648", "p0:" + path, "d0:" + path, "n0", "n0", "t0", "s0:1", "c0:1"}))
+		e.emit("xk.after-zero.reparsed", xkLine(root, []string{"n0", "t1", "c2:0", "z2", "c2:0", "c2:1", "d2:" + path, "t0", "z3", "c3:0", "c3:0", "n3"}))
+		e.emit("xk.after-zero.quiet", "xkq"+xkLine(root, []string{"n0", "c1:0", "z1", "c1:1", "c1:1", "d1:" + path})[2:])
 	}
 	// the structured scalar pool through the entry points that take a scalar of any length
 	for _, k := range scalarBytesPool(r, 2) {
